@@ -47,9 +47,9 @@ extern size_t carquet_zstd_compress_bound(size_t src_size);
  */
 
 typedef struct carquet_page_writer {
-    carquet_buffer_t values_buffer;      /* Encoded values */
-    carquet_buffer_t def_levels_buffer;  /* Definition levels (RLE) */
-    carquet_buffer_t rep_levels_buffer;  /* Repetition levels (RLE) */
+    carquet_buffer_t values_buffer;      /* Encoded values (BOOLEAN: one byte per value until finalize) */
+    carquet_buffer_t def_levels_buffer;  /* Definition levels of the page (raw int16 until finalize) */
+    carquet_buffer_t rep_levels_buffer;  /* Repetition levels of the page (raw int16 until finalize) */
     carquet_buffer_t page_buffer;        /* Final page with header */
 
     carquet_physical_type_t type;
@@ -307,16 +307,18 @@ carquet_status_t carquet_page_writer_add_values(
         writer->num_nulls += (num_values - num_non_null);
     }
 
-    /* Encode definition levels */
+    /* Accumulate the raw levels of the batch: a page carries exactly one encoded
+     * block per level kind, so encoding happens once, at finalize. */
     if (writer->max_def_level > 0 && def_levels) {
-        encode_levels(def_levels, num_values, writer->max_def_level,
-                      &writer->def_levels_buffer);
+        carquet_status_t lvl_status = carquet_buffer_append(
+            &writer->def_levels_buffer, def_levels, (size_t)num_values * sizeof(int16_t));
+        if (lvl_status != CARQUET_OK) return lvl_status;
     }
 
-    /* Encode repetition levels */
     if (writer->max_rep_level > 0 && rep_levels) {
-        encode_levels(rep_levels, num_values, writer->max_rep_level,
-                      &writer->rep_levels_buffer);
+        carquet_status_t lvl_status = carquet_buffer_append(
+            &writer->rep_levels_buffer, rep_levels, (size_t)num_values * sizeof(int16_t));
+        if (lvl_status != CARQUET_OK) return lvl_status;
     }
 
     /* Encode values using PLAIN encoding.
@@ -330,9 +332,11 @@ carquet_status_t carquet_page_writer_add_values(
 
     switch (writer->type) {
         case CARQUET_PHYSICAL_BOOLEAN: {
+            /* Booleans are bit-packed across the whole page: keep one byte
+             * per value here and pack once, at finalize. */
             const uint8_t* bools = (const uint8_t*)values;
-            status = carquet_encode_plain_boolean(bools, num_non_null,
-                                                   &writer->values_buffer);
+            status = carquet_buffer_append(&writer->values_buffer, bools,
+                                            (size_t)num_non_null);
             break;
         }
 
@@ -485,21 +489,36 @@ carquet_status_t carquet_page_writer_finalize(
     carquet_buffer_t uncompressed;
     carquet_buffer_init(&uncompressed);
 
+    carquet_status_t build_status = CARQUET_OK;
+
     if (writer->rep_levels_buffer.size > 0) {
-        carquet_buffer_append(&uncompressed,
-                               writer->rep_levels_buffer.data,
-                               writer->rep_levels_buffer.size);
+        build_status = encode_levels((const int16_t*)writer->rep_levels_buffer.data,
+                                     (int64_t)(writer->rep_levels_buffer.size / sizeof(int16_t)),
+                                     writer->max_rep_level, &uncompressed);
     }
 
-    if (writer->def_levels_buffer.size > 0) {
-        carquet_buffer_append(&uncompressed,
-                               writer->def_levels_buffer.data,
-                               writer->def_levels_buffer.size);
+    if (build_status == CARQUET_OK && writer->def_levels_buffer.size > 0) {
+        build_status = encode_levels((const int16_t*)writer->def_levels_buffer.data,
+                                     (int64_t)(writer->def_levels_buffer.size / sizeof(int16_t)),
+                                     writer->max_def_level, &uncompressed);
     }
 
-    carquet_buffer_append(&uncompressed,
-                           writer->values_buffer.data,
-                           writer->values_buffer.size);
+    if (build_status == CARQUET_OK) {
+        if (writer->type == CARQUET_PHYSICAL_BOOLEAN) {
+            build_status = carquet_encode_plain_boolean(writer->values_buffer.data,
+                                                         (int64_t)writer->values_buffer.size,
+                                                         &uncompressed);
+        } else {
+            build_status = carquet_buffer_append(&uncompressed,
+                                                  writer->values_buffer.data,
+                                                  writer->values_buffer.size);
+        }
+    }
+
+    if (build_status != CARQUET_OK) {
+        carquet_buffer_destroy(&uncompressed);
+        return build_status;
+    }
 
     *uncompressed_size = (int32_t)uncompressed.size;
 
@@ -607,9 +626,17 @@ carquet_status_t carquet_page_writer_finalize(
 
 size_t carquet_page_writer_estimated_size(const carquet_page_writer_t* writer) {
     if (!writer) return 0;
-    return writer->values_buffer.size +
-           writer->def_levels_buffer.size +
-           writer->rep_levels_buffer.size + 64;  /* Header overhead */
+    /* Levels and booleans are still unpacked: estimate their bit-packed size */
+    size_t values = writer->type == CARQUET_PHYSICAL_BOOLEAN
+        ? (writer->values_buffer.size + 7) / 8
+        : writer->values_buffer.size;
+    size_t def_rows = writer->def_levels_buffer.size / sizeof(int16_t);
+    size_t rep_rows = writer->rep_levels_buffer.size / sizeof(int16_t);
+    size_t def = def_rows
+        ? 4 + (def_rows * (size_t)bit_width_for_max(writer->max_def_level) + 7) / 8 : 0;
+    size_t rep = rep_rows
+        ? 4 + (rep_rows * (size_t)bit_width_for_max(writer->max_rep_level) + 7) / 8 : 0;
+    return values + def + rep + 64;  /* Header overhead */
 }
 
 int64_t carquet_page_writer_num_values(const carquet_page_writer_t* writer) {
